@@ -34,6 +34,7 @@ type UciScript struct {
 	ID    int       `json:"id"`
 	Name  string    `json:"name"`
 	Steps []UciStep `json:"steps"`
+	Book  string    `json:"book"` // directory with book_smalltest.txt: the session runs with this opening book
 }
 
 type UciEvent struct {
@@ -72,6 +73,12 @@ func uciSession(args []string) error {
 		mu.Unlock()
 	}
 	config.Settings.Search.UseBook = false
+	if sc.Book != "" {
+		config.Settings.Search.UseBook = true
+		config.Settings.Search.BookPath = sc.Book
+		config.Settings.Search.BookFile = "book_smalltest.txt"
+		config.Settings.Search.BookFormat = "Simple"
+	}
 	config.Settings.Search.TTSize = 16
 	// the handler as main() builds it, talking to pipes
 	inR, inW := io.Pipe()
